@@ -404,6 +404,31 @@ async fn episode(p: &EpParams, mt: bool) -> EpReport {
             tasks.push(tokio::spawn(meddler(mk(&w), s.clone(), rng.range(2, 8), rng.fork(6), Arc::clone(&pool), mt, allow_modify)));
         }
     }
+    // C08: a subscription created and deleted at the same moment, while the publishers are busy
+    // (a publish that meets the half-attached, already deleted subscription fails after the
+    // healthy subscriptions got its messages: the ids it consumed must not come back)
+    if prof == Profile::C08 && rng.chance(1, 2) {
+        let cx = mk(&w);
+        let ta2 = ta.clone();
+        let mut r = rng.fork(11);
+        tasks.push(tokio::spawn(async move {
+            for round in 0..r.range(2, 6) {
+                jitter(&mut r, mt).await;
+                let s = sub_name(1, 200 + round as u32);
+                let (c2, s2, t2) = (cx.clone(), s.clone(), ta2.clone());
+                let create = tokio::spawn(async move {
+                    let _ = c2.create_sub(&s2, &t2, 10).await;
+                });
+                for _ in 0..r.below(4) {
+                    tokio::task::yield_now().await;
+                }
+                let _ = cx.delete_sub(&s).await;
+                let _ = create.await;
+                let _ = cx.delete_sub(&s).await;
+            }
+        }));
+        shape.push("create||delete".into());
+    }
     // C01: a second subscription and a second topic come and go mid-stream (fresh names)
     if prof == Profile::C01 {
         let cx = mk(&w);
@@ -524,6 +549,9 @@ async fn episode(p: &EpParams, mt: bool) -> EpReport {
     for o in h.ops.values() {
         if let Some((_, _, Out::Panic(m))) = &o.ret {
             rep.viol("C17", "C17:panic-in-handler", m.clone());
+        }
+        if let (Op::Publish { .. }, Some((_, _, Out::Status(..)))) = (&o.op, &o.ret) {
+            rep.inc("publishes_answered_with_an_error");
         }
     }
     rep.add("deliveries", ls.deliveries);
